@@ -460,7 +460,7 @@ class ProxyExec(Conc):
                 r = fn(*args, **kwargs)
             except (KeyError, IndexError, ValueError, TypeError, ZeroDivisionError) as ex:
                 raise _raise(type(ex).__name__, unparse(e)[:50] if e is not None else "")
-            if type(r).__name__ in ("enumerate", "zip", "reversed", "map", "list_iterator", "set_iterator", "dict_keyiterator"):
+            if hasattr(r, "__next__"):          # enumerate, zip, reversed, iterators: materialised
                 r = list(r)
             if type(r).__name__ in ("dict_keys", "dict_values", "dict_items"):
                 r = list(r)
